@@ -539,3 +539,25 @@ def param_count(params: Vec) -> tuple[int, bool]:
             break
         n += 1
     return n, variadic
+
+
+def expand_lets(f: Form, env: Optional[dict] = None) -> str:
+    """The text of a form with every `let` / `let*` of simple symbol bindings and a single body form
+    replaced by that body, the bound names substituted by the (expanded) text of what they are bound
+    to.  For comparing an expression with a template whatever explaining names were introduced; not
+    an evaluation-preserving rewrite (a name used twice duplicates its expression)."""
+    env = env or {}
+    if isinstance(f, Sym):
+        return env.get(f.val, f.val)
+    if isinstance(f, List) and head(f) in ("let", "let*") and len(f.items) == 3 and isinstance(f.items[1], Vec) \
+            and all(isinstance(k, Sym) for k in f.items[1].items[0::2]):
+        e2 = dict(env)
+        b = f.items[1].items
+        for k, v in zip(b[0::2], b[1::2]):
+            e2[k.val] = expand_lets(v, e2)
+        return expand_lets(f.items[2], e2)
+    if isinstance(f, Wrap):
+        return f.PREFIX[f.tag] + (f.form.text() if f.tag in ("quote", "syntax-quote", "var") else expand_lets(f.form, env))
+    if isinstance(f, Coll):
+        return f.open + " ".join(expand_lets(i, env) for i in f.items) + f.close
+    return f.text()
